@@ -6,7 +6,7 @@ res = json.load(open(os.path.join(V, "seeded", "RESULTS.json")))
 rows = ["<!-- seed-table:begin -->", "| change | where / what | caught by | how |", "|---|---|---|---|"]
 for name in sorted(os.listdir(os.path.join(V, "seeded"))):
     d = os.path.join(V, "seeded", name)
-    if not os.path.isdir(d):
+    if not os.path.isdir(d) or not re.match(r"C\d\d_", name):
         continue
     m = json.load(open(os.path.join(d, "meta.json")))
     r = res.get(name, {})
